@@ -1,8 +1,10 @@
 package props
 
 import (
+	"bytes"
 	"fmt"
 	"github.com/tobgu/qframe/aggregation"
+	"github.com/tobgu/qframe/config/csv"
 	"os"
 	"runtime"
 	"sort"
@@ -61,13 +63,16 @@ func multiset(qf qframe.QFrame) string {
 // reference runs on the second, so that anything an implementation initialises lazily on first use
 // (caches on columns, contexts, groupers) is still cold when the goroutines start.
 type family struct {
-	members []qframe.QFrame
-	tabs    []hx.Table
-	grouper qframe.Grouper
-	ctx     *eval.Context
-	strjoin interface{} // one aggregation.StrJoin function value shared by the operations
-	clauses []qframe.FilterClause
-	orders  []qframe.Order
+	members  []qframe.QFrame
+	tabs     []hx.Table
+	grouper  qframe.Grouper
+	ctx      *eval.Context
+	strjoin  interface{} // one aggregation.StrJoin function value shared by the operations
+	exprs    []qframe.Expression
+	csvOrder []string
+	csvCols  csv.ToConfigFunc
+	clauses  []qframe.FilterClause
+	orders   []qframe.Order
 }
 
 var c11Names = []string{"root", "slice", "sorted", "filtered", "copied", "sorted+select"}
@@ -95,6 +100,7 @@ func TestC11(t *testing.T) {
 		gnullShared := rapid.Bool().Draw(t, "gnullshared")
 		var sharedClauses []hx.Clause
 		var sharedOrders []hx.Order
+		var sharedExprs []hx.Expr
 		var refTabs []hx.Table
 		mkFamily := func(first bool) family {
 			root := hx.Build(base)
@@ -127,7 +133,16 @@ func TestC11(t *testing.T) {
 					sharedClauses = append(sharedClauses, hx.GenClause(t, f.tabs[5], 2, hx.ClauseOpt{})) // over the columns every member has
 				}
 				sharedOrders = append(genOrders(t, f.tabs[5], "id"), hx.Order{Col: "id"})
+				for i := 0; i < 2; i++ {
+					want := rapid.SampledFrom([]hx.Kind{hx.KInt, hx.KFloat, hx.KString}).Draw(t, "sharedexprkind")
+					sharedExprs = append(sharedExprs, hx.GenExprOfKind(t, f.tabs[5], want, 2, customCtx))
+				}
 			}
+			for _, e := range sharedExprs {
+				f.exprs = append(f.exprs, e.Build())
+			}
+			f.csvOrder = []string{"i1", "id", "s1", "f1", "e1"}
+			f.csvCols = csv.Columns(f.csvOrder)
 			for _, c := range sharedClauses {
 				f.clauses = append(f.clauses, c.Build(hx.KindMap(f.tabs[5])))
 			}
@@ -157,7 +172,22 @@ func TestC11(t *testing.T) {
 				mi = 4 // more weight on the member that was itself made by adding a column (its column slice has a history)
 			}
 			tab, mn := tabs[mi], c11Names[mi]
-			switch rapid.IntRange(0, 17).Draw(t, "op") {
+			switch rapid.IntRange(0, 19).Draw(t, "op") {
+			case 18:
+				// one Expression value evaluated by several operations at once (shared like clauses and orders are)
+				k := rapid.IntRange(0, len(sharedExprs)-1).Draw(t, "sharedexpr")
+				makers[i] = opMaker{desc: fmt.Sprintf("%s.Eval(n1, shared expression %d: %s)", mn, k, sharedExprs[k].String()), scratch: true, mk: func(f family) func() string {
+					return func() string { return snapFrame(f.members[mi].Eval("n1", f.exprs[k], eval.EvalContext(f.ctx))) }
+				}}
+			case 19:
+				// one csv.Columns option value (and the slice behind it) used by several ToCSV calls at once
+				makers[i] = opMaker{desc: c11Names[5] + ".ToCSV(shared Columns option)", mk: func(f family) func() string {
+					return func() string {
+						var buf bytes.Buffer
+						err := f.members[5].ToCSV(&buf, f.csvCols) // the member with exactly the columns the option names
+						return fmt.Sprintf("%v\n%s order=%q", err, buf.String(), f.csvOrder)
+					}
+				}}
 			case 16:
 				// one aggregation function value (aggregation.StrJoin returns a closure) used by several Aggregate calls at once
 				key := rapid.SampledFrom([]string{"i1", "e1", "b1"}).Draw(t, "sjkey")
